@@ -45,6 +45,8 @@ class Flow(object):
         self.retried = 0
         self.canceled_action = False
         self.events = set()
+        self.static = {n: v for n, v in (ir.get("vars") or []) if not lang.is_expr(v)}
+        self.retry_declined = 0
 
     # ------------------------------------------------------------------ offers
     def _take_due(self, task, route):
@@ -66,6 +68,7 @@ class Flow(object):
             ex["retry_pending"] = False
             ex["attempt_open"] = True
             ex["offered_delay"] = o.get("delay")
+            o["expected_retry_delay"] = ex.get("retry_delay", 0)
             if t.get("with"):
                 ex["items_offered"] = set(o["items"])
                 ex["items_done"] = {}
@@ -98,7 +101,7 @@ class Flow(object):
         return any(v > 0 for v in self.due.values())
 
     # ------------------------------------------------------------------ completions
-    def complete(self, a, status, result, wf_before):
+    def complete(self, a, status, result, wf_before, retry_observed=None):
         """Observe the report of one action.  Returns a dict describing what the model concluded:
         {"task_done": bool, "task_status", "retried", "satisfied": [...], "targets": [...], ...}"""
         task, route, item = a
@@ -140,14 +143,15 @@ class Flow(object):
             if "retry" in lang.targets(tr):
                 cmd_when = tr.get("when")
         if (r or cmd_when is not None) and tstatus in lang.COMPLETED and wf_before in ACTIVE_WF:
-            count = 3 if not r else r["count"]
+            sctx = dict(self.static, n=ex["n"])
+            count = 3 if not r else lang.ev(r["count"], ctx=sctx)
             when = (r or {}).get("when") if r else (cmd_when if cmd_when and cmd_when["e"] != ["true"] else lang.E(["completed"]))
             try:
                 if ex["attempts"] - 1 < count:
                     if when is None:
                         want = tstatus == "failed"
                     else:
-                        want = bool(lang.ev(when, tstatus, tresult, {"n": ex["n"]}))
+                        want = bool(lang.ev(when, tstatus, tresult, sctx))
                 else:
                     want = False
             except lang.ModelError:
@@ -155,11 +159,20 @@ class Flow(object):
                 info["runtime_error"] = True
                 self.runtime_error = True
                 self.must_fail = True
+            info["retry_allowed"] = want
+            info["attempts"] = ex["attempts"]
+            info["retry_count"] = count
+            if retry_observed is not None:
+                if retry_observed and not want:
+                    self.problems.append(("retry-not-allowed", {"task": task, "route": route, "attempts": ex["attempts"], "count": count, "status": tstatus, "result": tresult}))
+                if want and not retry_observed:
+                    self.retry_declined += 1
+                want = bool(retry_observed)
             if want:
                 ex["attempts"] += 1
                 ex["attempt_open"] = False
                 ex["retry_pending"] = True
-                ex["retry_delay"] = (r or {}).get("delay") or 0
+                ex["retry_delay"] = lang.ev((r or {}).get("delay"), ctx=sctx) or 0
                 self.retried += 1
                 info["retried"] = True
                 self.events.add("retry")
@@ -240,9 +253,10 @@ class Flow(object):
 class FlowObserver(object):
     """Driver observer that feeds a Flow from step records."""
 
-    def __init__(self, ir):
+    def __init__(self, ir, observe_retry=False):
         self.flow = Flow(ir)
         self.last = None  # info of the last completion
+        self.observe_retry = observe_retry
 
     def __call__(self, drv, rec):
         op = rec["op"]
@@ -251,7 +265,12 @@ class FlowObserver(object):
             for o in rec["offers"]:
                 o["kind"] = self.flow.offer(o)
         elif op["op"] == "done":
-            self.last = self.flow.complete(tuple(op["a"]), op["status"], op.get("result"), rec["before"])
+            ro = None
+            if self.observe_retry:
+                # the engine's decision, read from the persisted record (C13 checks that it was allowed)
+                ent = drv.c.get_task_state_entry(op["a"][0], op["a"][1])
+                ro = bool(ent) and ent.get("status") == "retrying"
+            self.last = self.flow.complete(tuple(op["a"]), op["status"], op.get("result"), rec["before"], retry_observed=ro)
         elif op["op"] == "report" and op["status"] in ("pending", "paused"):
             # trigger of known finding R21: a pending action pauses the workflow without pausing
             # with-items tasks that still have items to offer
